@@ -6,7 +6,13 @@
 namespace PMV.Pipeline
 
 def annotationsBlock : String :=
-  "block:remove_annotations_options = RemoveAnnotationsOptions(remove_variable_annotations=remove_annotations, remove_return_annotations=remove_annotations, remove_argument_annotations=remove_annotations, remo"
+  "ifelse:if isinstance(remove_annotations, bool): remove_annotations_options = RemoveAnnotationsOptions(remove_variable_annotations=remove_annotations, remove_return_annotations=remove_annotations, remove_argument_annotations=remove_annotations, remove_class_attribute_annotations=remove_annotations) elif isinstance(remove_annotations, RemoveAnnotationsOptions): remove_annotations_options = remove_annotatio"
+
+/-- the caller's list is never the object that gets extended: `None` → fresh list, a string → singleton, a list → copy -/
+def preserveLocalsBlock : String :=
+  "ifelse:if preserve_locals is None: preserve_locals = [] elif isinstance(preserve_locals, str): preserve_locals = [preserve_locals] else: preserve_locals = list(preserve_locals)"
+def preserveGlobalsBlock : String :=
+  "ifelse:if preserve_globals is None: preserve_globals = [] elif isinstance(preserve_globals, str): preserve_globals = [preserve_globals] else: preserve_globals = list(preserve_globals)"
 
 def shebangBlock : String :=
   "block:shebang_line = _find_shebang(source) ; if shebang_line is not None:\n    return shebang_line + '\\n' + minified"
@@ -31,8 +37,8 @@ def modelled : List (String × String) := [
   ("", "resolve_names"),
   ("remove_builtin_exception_brackets and (not module.tainted)", "remove_no_arg_exception_call"),
   ("module.tainted", "taint-gating"),
-  ("preserve_locals is None", "block:preserve_locals = []"),
-  ("preserve_globals is None", "block:preserve_globals = []"),
+  ("preserve_locals is None", preserveLocalsBlock),
+  ("preserve_globals is None", preserveGlobalsBlock),
   ("", "preserve_locals.extend"),
   ("", "preserve_globals.extend"),
   ("", "allow_rename_locals"),
